@@ -408,6 +408,7 @@ inline S c07_value(vh::Rng & rng, bool & needs_rounding)
 {
     needs_rounding = false;
     if constexpr (sizeof(S) == 4) {
+        if (rng.below(12) == 0) return rng.coin() ? -0.0f : 0.0f;   // signed zeros: the sign survives widening
         switch (rng.below(5)) {
         case 0: return (float)rng.range(-100, 100);
         case 1: return std::ldexp(1.0f + (float)rng.unit(), (int)rng.range(-140, 120)) * (rng.coin() ? 1.f : -1.f);
@@ -417,6 +418,14 @@ inline S c07_value(vh::Rng & rng, bool & needs_rounding)
         }
     } else {
         needs_rounding = true;
+        if (rng.below(12) == 0) {
+            // signed zeros, and values far below the float subnormal range: they round to a zero of the SAME sign
+            switch (rng.below(3)) {
+            case 0: needs_rounding = false; return rng.coin() ? -0.0 : 0.0;
+            case 1: return -std::ldexp(1.0 + rng.unit(), (int)rng.range(-1000, -160));
+            default: return std::ldexp(1.0 + rng.unit(), (int)rng.range(-1000, -160));
+            }
+        }
         switch (rng.below(7)) {
         case 0: needs_rounding = false; return (double)rng.range(-100, 100);
         case 1: return std::ldexp(1.0 + rng.unit(), (int)rng.range(-120, 120)) * (rng.coin() ? 1 : -1);
@@ -484,6 +493,8 @@ inline void drive_c07_pair()
                             ok = (double)a == (double)b;  // widening (or same width) preserves the value exactly
                         else
                             ok = is_correctly_rounded((double)a, (float)b);
+                        // neither an exact conversion nor rounding to nearest changes the sign (signed zeros included)
+                        if (!std::isnan((double)a) && std::signbit((double)a) != std::signbit((double)b)) ok = false;
                         if (!ok) {
                             char buf[200];
                             std::snprintf(buf, sizeof buf, ": cell %llu component %llu stored %a loaded %a", (unsigned long long)i, (unsigned long long)j, (double)a, (double)b);
